@@ -1060,9 +1060,10 @@ def generate_cases(ctx: vlib.Ctx) -> list[dict]:
 
 
 def self_generic_codec_defect(case: dict, d: str, obs: dict) -> bool:
-    """Known finding C10/self-in-specialised-generic-codec (independent of any customization): codec of a
-    specialised generic alias Box[X] whose class has a Self-typed field; the Self call names an unspecialised
-    method that is never created."""
+    """The defect fixed by /repo 108dd9a (former finding C10/self-in-specialised-generic-codec, independent of any
+    customization): codec of a specialised generic alias Box[X] whose class has a Self-typed field; the Self call
+    named an unspecialised method that was never created.  No longer listed: if it reappears (seeded/revert-108dd9a)
+    the failure carries this signature and is a VIOLATION."""
     sh = {**DEFAULT_SHAPE, **case.get("shape", {})}
     if not (case["entry"] == "codec_dc" and sh["generic"] == "typevar" and sh["target"] == "alias"
             and sh["position"] in ("self_opt", "self_list") and "error" in obs):
@@ -1095,7 +1096,7 @@ def run(ctx: vlib.Ctx):
         "field type (List[int], Dict[str,int], date) x a subset of the 2 field slots + (level x key) slots with a variant "
         "per slot (dict both/one direction, pass_through, dict with pass_through, strategy object, use_annotations strategy); "
         "x shape (field declared in the class / inherited / re-declared over a base declaration with decoy options; type written directly or through a TypeVar of a specialised generic dataclass; observed on the top object, on a Self-typed child, or on a nested dataclass; Config own/inherited, BaseConfig subclass/plain class); "
-        "+ path cases: a chain of up to 3 dataclasses (nested field, List/Dict of the nested class, Optional[Self] / Tuple[Self,...] children; each class with or without ADD_DIALECT_SUPPORT, also the called one; decoy Config tables on the classes that do not own the field) ending in a field whose type is a term over Annotated / NewType / Optional / Union / List / Dict-value / leaf (date, Decimal) of depth <= 4, slots for every type object of the term at every level, observed by value position; "
+        "+ path cases: a chain of up to 3 dataclasses (nested field, List/Dict of the nested class, Optional[Self] / Tuple[Self,...] children; each class with or without ADD_DIALECT_SUPPORT, also the called one; decoy Config tables on the classes that do not own the field) ending in a field whose type is a term over Annotated / NewType / Optional / Union / List / Dict-value / Tuple[X, ...] / NamedTuple / TypedDict / leaf (date, Decimal) of depth <= 4, slots for every type object of the term at every level, observed by value position; "
         "each case is observed in both directions; distinct = distinct (entry, alias, type, slots->variant, direction); "
         "non-trivial = at least one slot present. quick: fixed probes + 1500 sampled; thorough: every presence subset per entry point (format mixin: every subset of its 12 table slots, field slots sampled)")
     ctx.trusted += [
@@ -1105,7 +1106,8 @@ def run(ctx: vlib.Ctx):
         "the tagged callables identify the slot they are registered at; `is` identity distinguishes pass_through from the built-in copy",
         "Registry.get (K5 registry_prepare): get_real_type / get_type_origin / is_annotated are function parameters (theorem C10_keys holds for all of them); the handler loop and ValueSpec.__setattr__ are matched textually; validated against the real Registry.get with the real primitives each run",
         "CodeBuilder.dataclass_fields (K5): classes are abstracted to getattr(cls, '__dataclass_fields__') per MRO entry, own annotated names and cls.__dict__; x[-1:0:-1] / x[1:] are named primitives validated against CPython; that @dataclass fills __dataclass_fields__ as CPython does is not modelled (the real-class runs with inherited / re-declared fields cover it)",
-        "positions below a field (Positions.v, K5PKernel.compile): translated = Registry.get, the first handler, the spec.copy of the NewType / Optional / collection-element / Union-member descent sites, the class handed to get_(un)pack_method_flags at the dataclass and Self call sites, get_pack_method_flags (K8) and get_unpack_method_flags (K5P); hand-written glue (tied by the real-class path cases only) = which descent site a type takes (is_new_type / is_optional / collection / union dispatch of pack_/unpack_special_typing_primitive and *_collection), that a declined node continues with that site, the fresh ValueSpec of a dataclass field (checked textually), Tuple[Self, ...] treated like a collection element, and that the generated method runs with `dialect` = the forwarded keyword",
+        "positions below a field (Positions.v, K5PKernel.compile): translated = Registry.get, the first handler, the spec.copy of the NewType / Optional / collection-element / Union-member / tuple-item / NamedTuple-field / TypedDict-key descent sites, the class handed to get_(un)pack_method_flags at the dataclass and Self call sites, get_pack_method_flags (K8) and get_unpack_method_flags (K5P); hand-written glue (tied by the real-class path cases only) = which descent site a type takes (is_new_type / is_optional / collection / union dispatch of pack_/unpack_special_typing_primitive and *_collection), that a declined node continues with that site, the fresh ValueSpec of a dataclass field (checked textually), Tuple[Self, ...] treated like a collection element, and that the generated method runs with `dialect` = the forwarded keyword",
+        "which descent site a type takes: K5D translates the if/elif chains of pack_/unpack_special_typing_primitive and pack_/unpack_collection over their own test expressions (kept as text); the outcome of each test for a concrete type is computed by the library's predicates in the harness (K5D-dispatch-vs-python) - the predicates themselves (is_new_type, is_optional, issubclass ...) and the registry order between the handlers other than special-before-collection are not modelled",
         "value-dependent selection among Union members (which member packs/unpacks a value) is C11's subject: path cases always use the first member and a second member (int) that never accepts the value",
     ]
     ctx.assumptions += ["strategy values are pass_through, dicts with serialize/deserialize entries, or SerializationStrategy instances (other values are ignored by the code; covered only by the kernel validation)"]
@@ -1238,7 +1240,7 @@ def paths_part(ctx: vlib.Ctx, proofs_ok: bool):
     real classes vs K5PKernel.compile + Positions.ref_compile (in Coq) and vs the property-text oracle."""
     from harness.props import c10_paths as cp
     rng = ctx.rng
-    n = ctx.budget(450, 3000) + (0 if proofs_ok else 600)
+    n = ctx.budget(400, 3000) + (0 if proofs_ok else 600)
     cases = [cp.gen_path_case(rng) for _ in range(n)]
     srcs = [cp.build_source(c, PRELUDE) for c in cases]
     if len(cases) > 1500:
